@@ -164,6 +164,7 @@ type connCfg struct {
 	AtEOF                                                                          string
 	UseServe                                                                       bool
 	HeaderRecv                                                                     bool // hrc=1: Server.HeaderReceived answers from the request's own X-Req-Conf header ("rt=MS;wt=MS;mb=N")
+	MaxConnsPerIP                                                                  int  // mpi=N
 }
 
 func parseCfg(b []byte) connCfg {
@@ -198,6 +199,8 @@ func parseCfg(b []byte) connCfg {
 			c.AtEOF = v
 		case "hrc":
 			c.HeaderRecv = v == "1"
+		case "mpi":
+			c.MaxConnsPerIP = n
 		}
 	}
 	return c
@@ -302,11 +305,14 @@ func newConnServer(cfg connCfg) *connServer {
 		ReadBufferSize:                cfg.ReadBuf,
 		MaxRequestBodySize:            cfg.MaxBody,
 		MaxRequestsPerConn:            cfg.MaxReqs,
+		MaxConnsPerIP:                 cfg.MaxConnsPerIP,
 		Logger:                        nopLogger{},
 		NoDefaultDate:                 true,
 		NoDefaultServerHeader:         true,
 		ConnState: func(c net.Conn, st fasthttp.ConnState) {
-			cs.tr.add(connEvent{Kind: "state", S: st.String(), N: cs.conn.consumed})
+			// B = identity of the net.Conn value the hook was called with (a per-connection history kept in a map keyed by
+			// that value, as net/http-style code does, needs it to be the same for the whole life of the connection)
+			cs.tr.add(connEvent{Kind: "state", S: st.String(), N: cs.conn.consumed, B: []byte(fmt.Sprintf("%T@%p", c, c))})
 		},
 	}
 	cs.s = s
